@@ -191,7 +191,10 @@ def count_tier(tier, quick, thorough):
 
 
 def mk(idp, n, op, *args, **meta):
-    return {"id": "%s%d" % (idp, n), "op": op, "args": list(args), "meta": meta}
+    c = {"id": "%s%d" % (idp, n), "op": op, "args": list(args), "meta": meta}
+    if "model" in meta:
+        c["model"] = meta["model"]
+    return c
 
 
 # ------------------------------------------------------------------ C01 / C02
@@ -1204,3 +1207,669 @@ class C05(Prop):
             agree = (res_kind(m) == "panic") == (rk == "panic")
         return {"agree": agree, "ok": ok, "nontrivial": rk == "err" or rk == "ok", "detail": "" if ok else "entry point %s did not return normally: %s" % (c["op"], rk),
                 "stats": {c["meta"]["stream"]: 1, "result_" + rk: 1}}
+
+
+# ------------------------------------------------------------------ C13
+def master_text(media, variants, sdata, g=None):
+    lines = ["#EXTM3U"]
+    blocks = []
+    for ty, grp in media:
+        extra = ',URI="u"' if ty == "SUBTITLES" else (',INSTREAM-ID="CC1"' if ty == "CLOSED-CAPTIONS" else "")
+        blocks.append(['#EXT-X-MEDIA:TYPE=%s,GROUP-ID="%s",NAME="n%s"%s' % (ty, grp, grp, extra)])
+    for v in variants:
+        if v["kind"] == "iframe":
+            a = 'BANDWIDTH=1,URI="i"' + (',VIDEO="%s"' % v["video"] if v["video"] else "")
+            blocks.append(["#EXT-X-I-FRAME-STREAM-INF:" + a])
+        else:
+            a = "BANDWIDTH=1"
+            for name, key in (("AUDIO", "audio"), ("VIDEO", "video"), ("SUBTITLES", "subs")):
+                if v[key]:
+                    a += ',%s="%s"' % (name, v[key])
+            if v["cc"] == "NONE":
+                a += ",CLOSED-CAPTIONS=NONE"
+            elif v["cc"]:
+                a += ',CLOSED-CAPTIONS="%s"' % v["cc"]
+            blocks.append(["#EXT-X-STREAM-INF:" + a, "v.m3u8"])
+    for did, lang in sdata:
+        blocks.append(['#EXT-X-SESSION-DATA:DATA-ID="%s",VALUE="x"%s' % (did, ',LANGUAGE="%s"' % lang if lang else "")])
+    if g is not None:
+        g.r.shuffle(blocks)
+    for b in blocks:
+        lines += b
+    return "\n".join(lines) + "\n"
+
+
+def master_consistent(media, variants, sdata):
+    have = set(media)
+    none = any(v["kind"] == "s" and v["cc"] == "NONE" for v in variants)
+    grp = any(v["kind"] == "s" and v["cc"] not in (None, "NONE") for v in variants)
+    for v in variants:
+        if v["video"] and ("VIDEO", v["video"]) not in have:
+            return False
+        if v["kind"] == "s":
+            if v["audio"] and ("AUDIO", v["audio"]) not in have:
+                return False
+            if v["subs"] and ("SUBTITLES", v["subs"]) not in have:
+                return False
+            if v["cc"] not in (None, "NONE") and ("CLOSED-CAPTIONS", v["cc"]) not in have:
+                return False
+    if none and grp:
+        return False
+    return len(set(sdata)) == len(sdata)
+
+
+@register
+class C13(Prop):
+    pid = "C13"
+    rule = ("master playlists over renditions {4 types x 2 group ids} (every subset in thorough, sampled in quick), up to 2 STREAM-INF variants with "
+            "{absent,g1,g2} for AUDIO/VIDEO/SUBTITLES and {absent,g1,g2,NONE} for CLOSED-CAPTIONS plus an optional I-frame variant, 0-2 session-data tags over "
+            "2 ids x {no language, en}, tags in any order; a rendition group literally named NONE exercises the known finding; oracle: accepted iff consistent "
+            "(independent python rule), rendition lookup = referenced renditions; correspondence on accept/reject and lookup")
+
+    def cases(self, tier, seed):
+        g = gen.G(seed * 1000003 + 13)
+        out = []
+        n = 0
+        types = ["AUDIO", "VIDEO", "SUBTITLES", "CLOSED-CAPTIONS"]
+        allm = [(t, grp) for t in types for grp in ("g1", "g2")]
+        for k in range(count_tier(tier, 2500, 60000)):
+            media = [m for m in allm if g.chance(0.5)]
+            if g.chance(0.1):
+                media.append(("CLOSED-CAPTIONS", "NONE"))
+            variants = []
+            for _ in range(g.r.randint(0, 2)):
+                variants.append({"kind": "s", "audio": g.pick([None, "g1", "g2"]), "video": g.pick([None, None, "g1", "g2"]),
+                                 "subs": g.pick([None, "g1", "g2"]), "cc": g.pick([None, "g1", "g2", "NONE"])})
+            if g.chance(0.4):
+                variants.append({"kind": "iframe", "video": g.pick([None, "g1", "g2"])})
+            sdata = [(g.pick(["a", "b"]), g.pick([None, "en"])) for _ in range(g.r.randint(0, 2))]
+            text = master_text(media, variants, sdata, g if g.chance(0.7) else None)
+            exp = master_consistent(media, variants, sdata)
+            d19 = ("CLOSED-CAPTIONS", "NONE") in media and any(v["kind"] == "s" and v["cc"] == "NONE" for v in variants)
+            out.append(mk("m", n, "master", hx(text), exp=exp, kind="accept"))
+            out.append(mk("l", n, "assoc", hx(text), exp=exp, kind="lookup", d19=d19))
+            n += 1
+        return out
+
+    def judge(self, run, c, m, i):
+        if c["meta"]["kind"] == "accept":
+            agree = (res_kind(m) == res_kind(i)) if m is not None else None
+            want = "ok" if c["meta"]["exp"] else "err"
+            ok = res_kind(i) == want
+            return {"agree": agree, "ok": ok, "nontrivial": True, "detail": "" if ok else "consistent=%s but parser says %s" % (c["meta"]["exp"], res_kind(i)),
+                    "stats": {"accepted" if want == "ok" else "rejected": 1}}
+        agree = (m == i) if m is not None else None
+        if not (i or "").startswith("ok "):
+            return {"agree": agree, "ok": None, "nontrivial": False}
+        # independent expectation of the lookup from the parsed master dump
+        pm = mres(run.impl.get("m" + c["id"][1:]))
+        if pm is None:
+            return {"agree": agree, "ok": None, "nontrivial": False}
+        md = first_dump(pm)
+        media = [(unparse(field(x, "type")[1]), decode_s(field(x, "group")[1])) for x in field(md, "media")[1:]]
+        exp = []
+        audio, video = [], []
+        for vi, v in enumerate(field(md, "variants")[1:]):
+            sd = field(v, "sd")
+            vid = decode_s(field(sd, "video")[1]) if field(sd, "video")[1] != "none" else None
+            refs = set()
+            if vid is not None:
+                refs.add(("video", vid))
+                video.append(vi)
+            if v[0] == "streaminf":
+                for fld, ty in (("audio", "audio"), ("subs", "subtitles")):
+                    val = field(v, fld)[1]
+                    if val != "none":
+                        refs.add((ty, decode_s(val)))
+                        if fld == "audio":
+                            audio.append(vi)
+                cc = field(v, "cc")[1]
+                if isinstance(cc, list):
+                    refs.add(("cc", decode_s(cc[1])))
+            exp.append(["v"] + [str(k) for k, mm in enumerate(media) if mm in refs])
+        t = parse_sexp(i)[1]
+        got_v = [x for x in t[1:] if x[0] == "v"]
+        ok = got_v == exp and field(t, "audio")[1:] == [str(x) for x in audio] and field(t, "video")[1:] == [str(x) for x in video] \
+            and field(t, "isassoc")[1] == "1"
+        return {"agree": agree, "ok": ok, "known": "D19" if (not ok and c["meta"]["d19"]) else None, "nontrivial": len(media) > 0,
+                "detail": "" if ok else "lookup expected %s got %s" % (exp, got_v), "stats": {"lookup": 1}}
+
+
+# ------------------------------------------------------------------ C14
+def attr_line(prefix, attrs):
+    return prefix + ",".join("%s=%s" % kv for kv in attrs)
+
+
+@register
+class C14(Prop):
+    pid = "C14"
+    rule = ("per tag, every presence subset of its attributes (exhaustive where <= 2^12, each enumerated attribute drawn from its value set plus one invalid "
+            "value, all other attributes valid): EXT-X-MEDIA, EXT-X-DATERANGE, EXT-X-SESSION-DATA, EXT-X-KEY / SESSION-KEY, STREAM-INF / I-FRAME-STREAM-INF, "
+            "EXT-X-START through the tag parsers, and the corresponding builders; oracle: accepted iff the property's rule (independent python predicate); "
+            "correspondence with the model's tag parsers; builder deviations of the known class D13 are reported as known findings")
+
+    def _media(self, g, n, out, exhaustive_mask=None):
+        names = ["TYPE", "URI", "GROUP-ID", "LANGUAGE", "ASSOC-LANGUAGE", "NAME", "DEFAULT", "AUTOSELECT", "FORCED", "INSTREAM-ID", "CHARACTERISTICS", "CHANNELS"]
+        mask = exhaustive_mask if exhaustive_mask is not None else g.r.randrange(1 << 12)
+        present = [nm for k, nm in enumerate(names) if mask >> k & 1]
+        vals = {}
+        ty = g.pick(["AUDIO", "VIDEO", "SUBTITLES", "CLOSED-CAPTIONS", "BOGUS"] if g.chance(0.15) else ["AUDIO", "VIDEO", "SUBTITLES", "CLOSED-CAPTIONS"])
+        for nm in present:
+            if nm == "TYPE":
+                vals[nm] = ty
+            elif nm in ("DEFAULT", "AUTOSELECT", "FORCED"):
+                vals[nm] = g.pick(["YES", "NO", "NO", "YES", "MAYBE"] if g.chance(0.1) else ["YES", "NO"])
+            elif nm == "INSTREAM-ID":
+                vals[nm] = g.pick(['"CC1"', '"SERVICE63"', '"SERVICE64"'] if g.chance(0.2) else ['"CC2"', '"SERVICE9"'])
+            elif nm == "CHANNELS":
+                vals[nm] = g.pick(['"2"', '"16/JOC"', '"x"'] if g.chance(0.15) else ['"2"', '"6/JOC"'])
+            else:
+                vals[nm] = '"v"'
+        attrs = [(nm, vals[nm]) for nm in present]
+        g.r.shuffle(attrs)
+        line = attr_line("#EXT-X-MEDIA:", attrs)
+        valid_vals = vals.get("TYPE", "AUDIO") != "BOGUS" and all(vals.get(k, "YES") in ("YES", "NO") for k in ("DEFAULT", "AUTOSELECT", "FORCED")) \
+            and vals.get("INSTREAM-ID", '"CC1"') != '"SERVICE64"' and vals.get("CHANNELS", '"2"') != '"x"'
+        t = vals.get("TYPE")
+        ok = valid_vals and all(k in vals for k in ("TYPE", "GROUP-ID", "NAME"))
+        if ok:
+            if t == "SUBTITLES" and "URI" not in vals:
+                ok = False
+            if t == "CLOSED-CAPTIONS" and ("URI" in vals or "INSTREAM-ID" not in vals):
+                ok = False
+            if t != "CLOSED-CAPTIONS" and "INSTREAM-ID" in vals:
+                ok = False
+            if vals.get("FORCED") == "YES" and t != "SUBTITLES":
+                ok = False
+            if vals.get("DEFAULT") == "YES" and vals.get("AUTOSELECT") == "NO":
+                ok = False
+        out.append(mk("t", n, "tag", "ExtXMedia", hx(line), exp=ok, tag="media", path="text"))
+        # the same through the builder (values without quotes)
+        if valid_vals:
+            cmd = {"TYPE": "type", "URI": "uri", "GROUP-ID": "group", "LANGUAGE": "lang", "ASSOC-LANGUAGE": "assoc", "NAME": "name", "DEFAULT": "default",
+                   "AUTOSELECT": "autoselect", "FORCED": "forced", "INSTREAM-ID": "instream", "CHARACTERISTICS": "chars", "CHANNELS": "channels"}
+            script = []
+            for nm, v in attrs:
+                v = v.strip('"')
+                if nm in ("DEFAULT", "AUTOSELECT", "FORCED"):
+                    v = "1" if v == "YES" else "0"
+                script.append("%s %s" % (cmd[nm], v))
+            out.append(mk("b", n, "btag", "ExtXMedia", hx("\n".join(script)), exp=ok, tag="media", path="builder", model=False))
+
+    def cases(self, tier, seed):
+        g = gen.G(seed * 1000003 + 14)
+        out = []
+        n = 0
+        if tier == "thorough":
+            for mask in range(1 << 12):
+                for _ in range(3):
+                    self._media(g, n, out, mask); n += 1
+        else:
+            for mask in range(0, 1 << 12, 3):
+                self._media(g, n, out, mask); n += 1
+        # DATERANGE
+        names = ["ID", "CLASS", "START-DATE", "END-DATE", "DURATION", "PLANNED-DURATION", "SCTE35-CMD", "END-ON-NEXT", "X-CLIENT"]
+        reps = count_tier(tier, 2, 10)
+        for mask in range(1 << len(names)):
+            for _ in range(reps):
+                present = [nm for k, nm in enumerate(names) if mask >> k & 1]
+                vals = {}
+                for nm in present:
+                    if nm in ("DURATION", "PLANNED-DURATION"):
+                        vals[nm] = g.pick(["1.5", "0", "-1", "-0.000000001"] if g.chance(0.25) else ["1.5", "60"])
+                    elif nm == "END-ON-NEXT":
+                        vals[nm] = g.pick(["YES", "NO"] if g.chance(0.3) else ["YES"])
+                    elif nm == "SCTE35-CMD":
+                        vals[nm] = "0xFC00"
+                    elif nm == "X-CLIENT":
+                        vals[nm] = '"c"'
+                    else:
+                        vals[nm] = '"v"'
+                attrs = []
+                for nm in present:
+                    key = nm
+                    if nm == "X-CLIENT":
+                        key = g.pick(["X-CLIENT", "X-CLIENT", "X-client", "X-CLI_ENT"])
+                    attrs.append((key, vals[nm]))
+                g.r.shuffle(attrs)
+                neg = any(vals.get(k, "1").startswith("-") for k in ("DURATION", "PLANNED-DURATION"))
+                badname = any(k.startswith("X-") and k != "X-CLIENT" for k, _ in attrs)
+                eon = vals.get("END-ON-NEXT")
+                ok = "ID" in vals and not neg and not badname and eon in (None, "YES")
+                if ok and eon == "YES" and ("CLASS" not in vals or "DURATION" in vals or "END-DATE" in vals):
+                    ok = False
+                out.append(mk("t", n, "tag", "ExtXDateRange", hx(attr_line("#EXT-X-DATERANGE:", attrs)), exp=ok, tag="daterange", path="text"))
+                n += 1
+                if not neg and not badname and eon in (None, "YES"):
+                    cmd = {"ID": "id", "CLASS": "class", "START-DATE": "start", "END-DATE": "end", "SCTE35-CMD": "cmd"}
+                    script = []
+                    for k, v in attrs:
+                        if k in cmd:
+                            script.append("%s %s" % (cmd[k], v.strip('"')))
+                        elif k == "DURATION":
+                            script.append("dur %d" % gen.dur_ns(v))
+                        elif k == "PLANNED-DURATION":
+                            script.append("planned %d" % gen.dur_ns(v))
+                        elif k == "END-ON-NEXT":
+                            script.append("eon 1")
+                        elif k == "X-CLIENT":
+                            script.append("client X-CLIENT s c")
+                    out.append(mk("b", n, "btag", "ExtXDateRange", hx("\n".join(script)), exp=ok, tag="daterange", path="builder", model=False,
+                                  d13=(eon == "YES")))
+                    n += 1
+        # SESSION-DATA, KEY, STREAM-INF, I-FRAME, START: all subsets
+        def subsets(prefix, ty, names, rule, tagname, valgen, count=1):
+            nonlocal n
+            for mask in range(1 << len(names)):
+                for _ in range(count):
+                    present = [nm for k, nm in enumerate(names) if mask >> k & 1]
+                    vals = {nm: valgen(nm) for nm in present}
+                    attrs = [(nm, vals[nm][0]) for nm in present]
+                    g.r.shuffle(attrs)
+                    valid = all(vals[nm][1] for nm in present)
+                    out.append(mk("t", n, "tag", ty, hx(attr_line(prefix, attrs)), exp=valid and rule(vals), tag=tagname, path="text"))
+                    n += 1
+        subsets("#EXT-X-SESSION-DATA:", "ExtXSessionData", ["DATA-ID", "VALUE", "URI", "LANGUAGE"],
+                lambda v: "DATA-ID" in v and (("VALUE" in v) != ("URI" in v)), "sessiondata", lambda nm: ('"x"', True), count_tier(tier, 2, 8))
+
+        def keyval(nm):
+            if nm == "METHOD":
+                return g.pick([("AES-128", True), ("SAMPLE-AES", True), ("AES-256", False)])
+            if nm == "URI":
+                return g.pick([('"k"', True), ('"k"', True), ('""', "empty"), ('" "', "empty")])
+            if nm == "IV":
+                return g.pick([("0x" + "ab" * 16, True), ("0X" + "AB" * 16, True), ("0x" + "ab" * 15, False), ("ab" * 16, False), ("0x" + "zz" * 16, False)])
+            if nm == "KEYFORMAT":
+                return ('"identity"', True)
+            if nm == "KEYFORMATVERSIONS":
+                return g.pick([('"1/2/3"', True), ('"1/2/3/4/5/6/7/8/9"', True), ('"1/2/3/4/5/6/7/8/9/10"', False), ('"1/256"', False), ('"a"', False)])
+            return ('"x"', True)
+
+        def keyrule(v):
+            return "METHOD" in v and "URI" in v and v["URI"][1] is True
+        for ty, prefix in (("ExtXKey", "#EXT-X-KEY:"), ("ExtXSessionKey", "#EXT-X-SESSION-KEY:")):
+            for mask in range(1 << 5):
+                for _ in range(count_tier(tier, 6, 40)):
+                    names5 = ["METHOD", "URI", "IV", "KEYFORMAT", "KEYFORMATVERSIONS"]
+                    present = [nm for k, nm in enumerate(names5) if mask >> k & 1]
+                    vals = {nm: keyval(nm) for nm in present}
+                    attrs = [(nm, vals[nm][0]) for nm in present]
+                    g.r.shuffle(attrs)
+                    valid = all(vals[nm][1] is not False for nm in present)
+                    out.append(mk("t", n, "tag", ty, hx(attr_line(prefix, attrs)), exp=bool(valid and keyrule(vals)), tag="key", path="text"))
+                    n += 1
+        out.append(mk("t", n, "tag", "ExtXKey", hx("#EXT-X-KEY:METHOD=NONE"), exp=True, tag="key", path="text")); n += 1
+        out.append(mk("t", n, "tag", "ExtXSessionKey", hx("#EXT-X-SESSION-KEY:METHOD=NONE"), exp=False, tag="key", path="text")); n += 1
+        out.append(mk("b", n, "btag", "DecryptionKey", hx("method AES-128\nuri "), exp=False, tag="key", path="builder", model=False, d13=True)); n += 1
+        out.append(mk("b", n, "btag", "DecryptionKey", hx("method AES-128"), exp=False, tag="key", path="builder", model=False)); n += 1
+        out.append(mk("b", n, "btag", "DecryptionKey", hx("uri k"), exp=False, tag="key", path="builder", model=False)); n += 1
+        out.append(mk("b", n, "btag", "DecryptionKey", hx("method SAMPLE-AES\nuri k\nversions 1/2"), exp=True, tag="key", path="builder", model=False)); n += 1
+
+        def sival(nm):
+            if nm in ("BANDWIDTH", "AVERAGE-BANDWIDTH"):
+                return g.pick([("1000", True), ("18446744073709551615", True), ("18446744073709551616", False), ("-1", False), ("1.5", False)])
+            if nm == "RESOLUTION":
+                return g.pick([("1x1", True), ("1920x1080", True), ("1920", False), ("ax1", False)])
+            if nm == "HDCP-LEVEL":
+                return g.pick([("TYPE-0", True), ("NONE", True), ("TYPE-1", False)])
+            if nm == "FRAME-RATE":
+                return g.pick([("25", True), ("29.97", True), ("-1", False), ("nan", False), ("inf", False)])
+            if nm == "CLOSED-CAPTIONS":
+                return g.pick([("NONE", True), ('"cc"', True)])
+            return ('"x"', True)
+        names_si = ["BANDWIDTH", "AVERAGE-BANDWIDTH", "CODECS", "RESOLUTION", "FRAME-RATE", "HDCP-LEVEL", "AUDIO", "VIDEO", "SUBTITLES", "CLOSED-CAPTIONS"]
+        for mask in range(0, 1 << len(names_si), count_tier(tier, 3, 1)):
+            present = [nm for k, nm in enumerate(names_si) if mask >> k & 1]
+            vals = {nm: sival(nm) for nm in present}
+            attrs = [(nm, vals[nm][0]) for nm in present]
+            g.r.shuffle(attrs)
+            valid = all(vals[nm][1] for nm in present)
+            line = attr_line("#EXT-X-STREAM-INF:", attrs) + "\nuri.m3u8"
+            out.append(mk("t", n, "tag", "VariantStream", hx(line), exp=valid and "BANDWIDTH" in vals, tag="streaminf", path="text")); n += 1
+        names_if = ["BANDWIDTH", "URI", "CODECS", "RESOLUTION", "HDCP-LEVEL", "VIDEO"]
+        for mask in range(1 << len(names_if)):
+            for _ in range(count_tier(tier, 2, 8)):
+                present = [nm for k, nm in enumerate(names_if) if mask >> k & 1]
+                vals = {nm: sival(nm) for nm in present}
+                attrs = [(nm, vals[nm][0]) for nm in present]
+                g.r.shuffle(attrs)
+                valid = all(vals[nm][1] for nm in present)
+                out.append(mk("t", n, "tag", "VariantStream", hx(attr_line("#EXT-X-I-FRAME-STREAM-INF:", attrs)), exp=valid and "BANDWIDTH" in vals and "URI" in vals, tag="iframe", path="text")); n += 1
+        for toff in (None, "1.5", "-2", "nan", "x", "inf"):
+            for prec in (None, "YES", "NO", "MAYBE", "yes"):
+                attrs = ([("TIME-OFFSET", toff)] if toff is not None else []) + ([("PRECISE", prec)] if prec is not None else [])
+                if g.chance(0.5):
+                    attrs.reverse()
+                ok = toff in ("1.5", "-2") and prec in (None, "YES", "NO")
+                out.append(mk("t", n, "tag", "ExtXStart", hx(attr_line("#EXT-X-START:", attrs)), exp=ok, tag="start", path="text")); n += 1
+        return out
+
+    def judge(self, run, c, m, i):
+        agree = (res_kind(m) == res_kind(i)) if m is not None else None
+        want = "ok" if c["meta"]["exp"] else "err"
+        ok = res_kind(i) == want
+        known = "D13" if (not ok and c["meta"].get("d13") and c["meta"]["path"] == "builder") else None
+        return {"agree": agree, "ok": ok, "known": known, "nontrivial": True,
+                "detail": "" if ok else "%s (%s path): rule says %s, got %s" % (c["meta"]["tag"], c["meta"]["path"], want, res_kind(i)),
+                "stats": {c["meta"]["tag"] + ":" + c["meta"]["path"]: 1}}
+
+
+# ------------------------------------------------------------------ C18
+@register
+class C18(Prop):
+    pid = "C18"
+    rule = ("per public type a pool of boundary and random values written in text form: parsed, printed, re-parsed by the implementation (op tag) and by the "
+            "model; oracle: re-parse equals the first parse for every accepted value; float types accept exactly finite (UFloat: non-negative-sign) numbers over "
+            "a pool of special texts; every enum variant; all 67 in-stream ids; integers up to the type limits; durations below 10^6 s with ns precision")
+
+    def cases(self, tier, seed):
+        g = gen.G(seed * 1000003 + 18)
+        out = []
+        n = 0
+
+        def add(ty, text, **meta):
+            nonlocal n
+            out.append(mk("t", n, "tag", ty, hx(text), ty=ty, **meta))
+            n += 1
+        ints = [0, 1, 9, 10, 255, 256, 2 ** 32, 2 ** 63, 2 ** 64 - 1]
+        for a in ints + [g.u64() for _ in range(count_tier(tier, 30, 400))]:
+            add("ByteRange", "%d" % a)
+            for b in ints[:6] + [g.small(10 ** 9)]:
+                if a + b < 2 ** 64:
+                    add("ByteRange", "%d@%d" % (a, b))
+                    add("ExtXByteRange", "#EXT-X-BYTERANGE:%d@%d" % (a, b))
+            add("Channels", "%d" % a)
+            add("Channels", "%d/JOC" % a)
+            add("Resolution", "%dx%d" % (a, g.pick(ints)))
+            add("StreamData", "BANDWIDTH=%d,AVERAGE-BANDWIDTH=%d" % (a, g.pick(ints)))
+        for v in range(1, 8):
+            add("ProtocolVersion", str(v))
+            add("ExtXVersion", "#EXT-X-VERSION:%d" % v)
+        for s in ["EVENT", "VOD"]:
+            add("PlaylistType", "#EXT-X-PLAYLIST-TYPE:" + s)
+        for s in gen.MTYPES:
+            add("MediaType", s)
+        for s in ["TYPE-0", "NONE"]:
+            add("HdcpLevel", s)
+        for s in ["AES-128", "SAMPLE-AES"]:
+            add("EncryptionMethod", s)
+        for s in gen.INSTREAM:
+            add("InStreamId", s)
+        for s in ["NONE", '"cc1"', '"grp, x=1"', '"é"']:
+            add("ClosedCaptions", s)
+        for k in range(count_tier(tier, 60, 600)):
+            add("InitializationVector", "0x" + g.hexbytes(16).hex())
+            add("InitializationVector", "0X" + g.hexbytes(16).hex().upper())
+            add("Codecs", ",".join(g.pick(["avc1.4d401e", "mp4a.40.2", "ec-3", "x y", "é"]) for _ in range(g.r.randint(1, 4))))
+            add("KeyFormatVersions", '"%s"' % "/".join(str(g.pick([1, 2, 3, 9, 255])) for _ in range(g.r.randint(2, 9))))
+            add("KeyFormat", '"%s"' % g.pick(["identity", "com.apple.streamingkeydelivery", "com.microsoft.playready", "urn:uuid:edef8ba9-79d6-4ace-a3c8-27dcd51d21ed", "com.example", "é,="]))
+            add("Value", g.pick(['"%s"' % g.qstring(), "0x" + g.hexbytes(g.r.randint(0, 6)).hex().upper(), g.f32_text()]))
+            add("ExtInf", "#EXTINF:%s,%s" % (g.duration_text(10 ** 6), g.pick(["", "title", "a,b"])))
+            add("ExtXKey", gen.key_line(gen.gen_key(g)))
+            add("ExtXSessionKey", gen.key_line(gen.gen_key(g)).replace("#EXT-X-KEY:", "#EXT-X-SESSION-KEY:"))
+            add("ExtXDateRange", gen.daterange_line(gen.gen_daterange(g), None))
+            add("ExtXMedia", gen.xmedia_line(gen.gen_xmedia(g), None))
+            mm = gen.gen_master(g)
+            for v in mm["variants"]:
+                add("VariantStream", "\n".join(gen.variant_lines(v, None)))
+            for d in mm["sdata"]:
+                add("ExtXSessionData", gen.sdata_line(d, None))
+            add("ExtXStart", "#EXT-X-START:TIME-OFFSET=%s%s" % (g.f32_text(), g.pick(["", ",PRECISE=YES"])))
+            add("ExtXMap", gen.map_line({"uri": g.uri(), "range": (g.small(10 ** 6), g.small(10 ** 6)) if g.chance(0.5) else None}, None))
+        add("ExtXKey", "#EXT-X-KEY:METHOD=NONE")
+        # float types: accept exactly the finite numbers
+        specials = ["0", "-0", "+0", "1", "-1", "1.5", "3.4028235e38", "3.4028236e38", "-3.4028235e38", "1e39", "-1e39", "1e-46", "1.4e-45", "1e-50", "inf", "-inf",
+                    "+inf", "infinity", "nan", "NaN", "-nan", "", ".", "e5", "1e", "1_0", "0x10", " 1", "1 ", ".5", "5.", "1e5", "1E5", "16777217", "0.1", "123456.789",
+                    "340282350000000000000000000000000000000", "340282360000000000000000000000000000000", "-0.0"]
+        finite = lambda t: t in ("0", "-0", "+0", "1", "-1", "1.5", "3.4028235e38", "-3.4028235e38", "1e-46", "1.4e-45", "1e-50", ".5", "5.", "1e5", "1E5", "16777217",
+                                 "0.1", "123456.789", "340282350000000000000000000000000000000", "-0.0")
+        for t in specials:
+            add("Float", t, accept=finite(t))
+            add("UFloat", t, accept=finite(t) and not t.startswith("-"))
+        for k in range(count_tier(tier, 400, 20000)):
+            bits = g.r.randrange(0, 0x7F800000)
+            import struct
+            x = struct.unpack(">f", struct.pack(">I", bits))[0]
+            t = repr(x) if g.chance(0.5) else "%.9g" % x
+            if "e" in t and g.chance(0.5):
+                from decimal import Decimal
+                t = format(Decimal(t), "f")
+            add("UFloat", t, accept=True)
+            add("Float", "-" + t, accept=True)
+        return out
+
+    def judge(self, run, c, m, i):
+        agree = (m == i) if m is not None else None
+        acc = c["meta"].get("accept")
+        if acc is not None:
+            ok = (res_kind(i) == "ok") == acc
+            if not ok:
+                return {"agree": agree, "ok": False, "nontrivial": True, "detail": "float text accepted=%s, expected %s" % (res_kind(i), acc), "stats": {"float_accept": 1}}
+        if not (i or "").startswith("ok "):
+            return {"agree": agree, "ok": acc is not None or None, "nontrivial": False, "detail": "", "stats": {c["meta"]["ty"] + ":rejected": 1}}
+        t = parse_sexp(i)[1]
+        re_ = field(t, "re")
+        ok = re_ is not None and re_[1] == "ok" and unparse(re_[2]) == unparse(t[1])
+        return {"agree": agree, "ok": ok, "nontrivial": True, "detail": "" if ok else "parse(print v) differs from v: %s" % (i[:600]), "stats": {c["meta"]["ty"]: 1}}
+
+
+# ------------------------------------------------------------------ C19
+LAW_POOLS = {
+    "Float": ["0", "-0", "1.5", "-1.5", "2", "1e-40", "-1e-40", "3.4028235e38", "0.1", "0.10000001"],
+    "UFloat": ["0", "1.5", "2", "1e-40", "3.4028235e38", "0.1", "0.10000001", "25", "29.97"],
+    "KeyFormatVersions": ["1/2#2", "3/4#2", "1/2/3#2", "1/2/3", "1", "empty", "1/2/3#1+9", "1/9", "2/1", "1/2/3/4/5/6/7/8/9", "1/2/3/4/5/6/7/8/9#1", "255", "1/2/3#0", "9/9/9#2+1"],
+    "ByteRange": ["1", "1@0", "1@5", "6@0", "0", "0@0", "5@1"],
+    "Channels": ["1", "2", "2/JOC", "1/JOC"],
+    "Resolution": ["1x2", "2x1", "1x1", "10x9"],
+    "Codecs": ["a", "a,b", "b,a", "a,b,c", ""],
+    "ClosedCaptions": ["NONE", '"NONE"', '"a"', '"b"'],
+    "KeyFormat": ['"identity"', "identity", '"com.apple.streamingkeydelivery"', '"x"', '"y"'],
+    "InitializationVector": ["0x" + "00" * 16, "0x" + "00" * 15 + "01", "0X" + "FF" * 16, "0x" + "ff" * 16],
+    "Value": ['"a"', '"b"', "0x00", "0x0000", "1.5", "0", "-0", '"1.5"'],
+    "DecryptionKey": ['METHOD=AES-128,URI="k"', 'METHOD=AES-128,URI="k",KEYFORMATVERSIONS="1/2"', 'METHOD=AES-128,URI="k",KEYFORMATVERSIONS="3/4"',
+                      'METHOD=AES-128,URI="k",KEYFORMAT="identity"', 'METHOD=SAMPLE-AES,URI="k"', 'METHOD=AES-128,URI="k2"',
+                      'METHOD=AES-128,URI="k",IV=0x' + "00" * 16, 'METHOD=AES-128,URI="k",KEYFORMATVERSIONS="1/2/3"'],
+    "ExtXKey": ["#EXT-X-KEY:METHOD=NONE", '#EXT-X-KEY:METHOD=AES-128,URI="k"', '#EXT-X-KEY:METHOD=AES-128,URI="k",KEYFORMATVERSIONS="1/2"',
+                '#EXT-X-KEY:METHOD=AES-128,URI="k",KEYFORMATVERSIONS="2/1"'],
+    "ExtInf": ["#EXTINF:1,", "#EXTINF:1,t", "#EXTINF:2,", "#EXTINF:1.000000001,"],
+    "ExtXStart": ["#EXT-X-START:TIME-OFFSET=0", "#EXT-X-START:TIME-OFFSET=-0", "#EXT-X-START:TIME-OFFSET=1,PRECISE=YES", "#EXT-X-START:TIME-OFFSET=1"],
+    "ExtXMap": ['#EXT-X-MAP:URI="a"', '#EXT-X-MAP:URI="a",BYTERANGE="1@2"', '#EXT-X-MAP:URI="b"'],
+    "ExtXSessionData": ['#EXT-X-SESSION-DATA:DATA-ID="a",VALUE="v"', '#EXT-X-SESSION-DATA:DATA-ID="a",URI="v"', '#EXT-X-SESSION-DATA:DATA-ID="a",VALUE="v",LANGUAGE="en"'],
+    "StreamData": ["BANDWIDTH=1", "BANDWIDTH=2", 'BANDWIDTH=1,CODECS="a"', "BANDWIDTH=1,RESOLUTION=1x1"],
+    "ProtocolVersion": ["1", "2", "7"],
+}
+
+
+@register
+class C19(Prop):
+    pid = "C19"
+    rule = ("all ordered triples (quick: sampled) from a pool of values per public type incl. +0/-0 floats, key format versions with equal length and different "
+            "content, truncated buffers with stale data, keys differing only in versions, and whole playlists; the implementation's ==, cmp and DefaultHasher results "
+            "are checked against the laws: reflexive, symmetric, equal => same observable content, equal <=> Ordering::Equal, antisymmetric, transitive, equal => equal hashes")
+
+    def cases(self, tier, seed):
+        g = gen.G(seed * 1000003 + 19)
+        out = []
+        n = 0
+        for ty, pool in LAW_POOLS.items():
+            triples = list(itertools.product(pool, repeat=3))
+            if tier != "thorough" and len(triples) > 150:
+                triples = g.r.sample(triples, 150)
+            for a, b, c_ in triples:
+                out.append(mk("l", n, "laws", ty, hx(a), hx(b), hx(c_), ty=ty, model=False))
+                n += 1
+        for k in range(count_tier(tier, 40, 400)):
+            texts = []
+            for _ in range(3):
+                gen.plain_style(g)
+                texts.append(gen.render_master(gen.gen_master(g), None) if k % 2 else gen.render_media(gen.gen_key_history(g, length=4) if False else gen.gen_media(g, nseg=2), None))
+            if g.chance(0.5):
+                texts[1] = texts[0]
+            out.append(mk("l", n, "laws", "MasterPlaylist" if k % 2 else "MediaPlaylist", hx(texts[0]), hx(texts[1]), hx(texts[2]), ty="playlist", model=False))
+            n += 1
+        return out
+
+    def judge(self, run, c, m, i):
+        if not (i or "").startswith("ok "):
+            return {"agree": None, "ok": None if res_kind(i) == "err" else False, "nontrivial": False, "detail": "laws op: " + res_kind(i)}
+        t = parse_sexp(i)[1]
+        e_ab, e_ba, e_aa, e_ac = t[1:5]
+        c_ab, c_ba, c_bc, c_ac, c_aa = t[5:10]
+        h_ab, h_bc, h_aa = t[10:13]
+        da, db, dc = [unparse(x) for x in t[13:16]]
+        norm = lambda d: re.sub(r"\((f|uf|vf) 2147483648\)", r"(\1 0)", re.sub(r"\(start 2147483648 ", "(start 0 ", d))
+        bad = []
+        if e_aa != "1" or e_ac != "1":
+            bad.append("not reflexive / clone differs")
+        if e_ab != e_ba:
+            bad.append("== not symmetric")
+        if e_ab == "1" and norm(da) != norm(db):
+            bad.append("false equality: a == b but contents differ")
+        if e_ab == "0" and da == db:
+            bad.append("equal contents compare unequal")
+        if c_ab != "na":
+            rev = {"lt": "gt", "gt": "lt", "eq": "eq"}
+            if c_aa != "eq":
+                bad.append("cmp(a,a) != Equal")
+            if (c_ab == "eq") != (e_ab == "1"):
+                bad.append("a == b is not equivalent to cmp == Equal")
+            if rev[c_ab] != c_ba:
+                bad.append("cmp not antisymmetric")
+            le = lambda x: x in ("lt", "eq")
+            if le(c_ab) and le(c_bc) and not le(c_ac):
+                bad.append("cmp not transitive")
+            if c_ab == "eq" and c_bc == "eq" and c_ac != "eq":
+                bad.append("Equal not transitive")
+            if e_ab == "1" and h_ab != "1":
+                bad.append("a == b but hashes differ")
+            if h_aa != "1":
+                bad.append("clone hashes differently")
+        ok = not bad
+        return {"agree": None, "ok": ok, "nontrivial": True, "detail": "; ".join(bad) + " :: " + i[:500] if bad else "", "stats": {c["meta"]["ty"]: 1}}
+
+
+# ------------------------------------------------------------------ C20
+def builder_script(a, g, explicit="none"):
+    """a call sequence realising the abstract media playlist `a` (no explicit numbers unless asked)"""
+    setters = ["Tn %d" % (a["target"] * 10 ** 9)]
+    if a["mseq"] is not None:
+        setters.append("M %d" % a["mseq"])
+    if a["dseq"] is not None:
+        setters.append("D %d" % a["dseq"])
+    if a["ptype"] is not None:
+        setters.append("P %s" % a["ptype"].lower())
+    if a["iframes"]:
+        setters.append("I 1")
+    if a["indep"]:
+        setters.append("N 1")
+    if a["endlist"]:
+        setters.append("E 1")
+    if a["start"] is not None:
+        setters.append("S #EXT-X-START:TIME-OFFSET=%s%s" % (a["start"][0], ",PRECISE=YES" if a["start"][1] else ""))
+    unk = [u for _, u in sorted(a["unknown"], key=lambda x: x[0])]
+    ulines = ["U " + u for u in unk] + ["unknown"]
+    use_list = g.chance(0.5) or not a["segs"]     # an empty playlist needs segments(vec![])
+    segs = []
+    hist = []
+    for idx, s in enumerate(a["segs"]):
+        hist = gen.keys_in_effect(hist + s["keys_before"])
+        lines = ["seg -" if explicit == "none" else "seg %d" % idx]
+        for k in hist:
+            lines.append("tag " + gen.key_line(k))
+        for l in gen.seg_tag_lines(dict(s, keys_before=[], map=None if s["map"] is None else dict(s["map"], pos=0)), None):
+            lines.append("tag " + l)
+        lines.append("uri " + s["uri"])
+        lines.append("end list" if use_list else "end push")
+        segs.append(lines)
+    body = [l for sl in segs for l in sl] + (["segments"] if use_list else [])
+    # setters in any order, before or after the segments
+    g.r.shuffle(setters)
+    cut = g.r.randrange(len(setters) + 1)
+    script = setters[:cut] + (ulines if g.chance(0.5) else []) + body + setters[cut:]
+    if "unknown" not in script:
+        script += ulines
+    script.append("build")
+    return "\n".join(script)
+
+
+@register
+class C20(Prop):
+    pid = "C20"
+    rule = ("abstract media playlists (C01 domain; maps only where no key is in effect, because ExtXMap keys cannot be set through the public builder) realised both as "
+            "rendered text and as a shuffled builder call sequence (setters in any order before/after the segments, push_segment vs segments()); plus call sequences "
+            "with explicit numbers (permutations of 0..n-1, gaps, duplicates, numbers below the media sequence, up to 64); oracle: build() never panics, succeeds iff the "
+            "text parses, equal dumps, the built value's text re-parses to the same content, gap-free numbering rule; correspondence with the model's builder")
+
+    def cases(self, tier, seed):
+        g = gen.G(seed * 1000003 + 20)
+        out = []
+        n = 0
+        for k in range(count_tier(tier, 700, 20000)):
+            gen.plain_style(g)
+            a = gen.gen_media(g, nseg=g.r.randint(0, 6))
+            hist = []
+            for s in a["segs"]:
+                if s["map"] is not None and gen.keys_in_effect(hist + s["keys_before"][: s["map"]["pos"]]) not in ([], ):
+                    s["map"] = None
+                hist = gen.keys_in_effect(hist + s["keys_before"])
+            if g.chance(0.2) and a["segs"]:
+                # an invalid one: a too long segment or a broken range chain
+                if g.chance(0.5):
+                    a["segs"][0]["dur"] = str(a["target"] + 1)
+                else:
+                    a["segs"][0]["range"] = (5, None)
+            text = gen.render_media(a, None)
+            out.append(mk("t", n, "media", hx(text), role="text"))
+            out.append(mk("b", n, "bmedia", hx(builder_script(a, g)), role="builder", partner="t%d" % n, nseg=len(a["segs"])))
+            n += 1
+        for k in range(count_tier(tier, 500, 10000)):
+            cnt = g.r.randint(1, 6)
+            nums = list(range(cnt))
+            kind = g.r.randrange(5)
+            if kind == 0:
+                g.r.shuffle(nums)
+            elif kind == 1:
+                nums[g.r.randrange(cnt)] = g.r.randint(cnt, 64)      # a gap
+            elif kind == 2 and cnt > 1:
+                nums[0] = nums[1]                                      # a duplicate
+            elif kind == 3:
+                nums = [x + 3 for x in nums]
+            mseq = g.pick([None, 0, 3, 5])
+            use_list = g.chance(0.5)
+            script = ["Tn 10000000000"] + (["M %d" % mseq] if mseq is not None else [])
+            for j, x in enumerate(nums):
+                implicit = g.chance(0.25)
+                script += ["seg -" if implicit else "seg %d" % x, "dur 5000000000", "uri s%d.ts" % j, "end list" if use_list else "end push"]
+            script += (["segments"] if use_list else []) + ["build"]
+            out.append(mk("x", n, "bmedia", hx("\n".join(script)), role="explicit", mseq=mseq or 0))
+            n += 1
+        return out
+
+    def judge(self, run, c, m, i):
+        agree = (m == i) if m is not None else None
+        role = c["meta"]["role"]
+        if role == "text":
+            return {"agree": agree, "ok": None, "nontrivial": False}
+        if res_kind(i) not in ("ok", "err"):
+            return {"agree": agree, "ok": False, "nontrivial": True, "detail": "builder call sequence did not return normally: " + res_kind(i)}
+        node = mres(i)
+        if role == "builder":
+            t = run.impl.get(c["meta"]["partner"])
+            tn = mres(t)
+            if (node is None) != (tn is None):
+                return {"agree": agree, "ok": False, "nontrivial": True, "detail": "builder says %s, parser says %s for the same content" % (res_kind(i), res_kind(t))}
+            if node is None:
+                return {"agree": agree, "ok": True, "nontrivial": True, "stats": {"both_reject": 1}}
+            same = unparse(first_dump(node)) == unparse(first_dump(tn))
+            re_ = field(node, "re")
+            rt = re_ is not None and re_[1] == "ok" and unparse(re_[2]) == unparse(first_dump(node))
+            ok = same and rt
+            return {"agree": agree, "ok": ok, "known": classify_roundtrip_known(node) if not ok else None, "nontrivial": c["meta"]["nseg"] > 0,
+                    "detail": "" if ok else "built value differs from parsed value (same=%s) or does not round-trip (rt=%s)" % (same, rt), "stats": {"both_accept": 1}}
+        # explicit numbers
+        if node is None:
+            return {"agree": agree, "ok": True, "nontrivial": True, "stats": {"explicit_err": 1}}
+        nums = [int(field(s, "num")[1]) for s in media_segs(first_dump(node))]
+        # gap-free: the slots 0..n-1 are all filled; implicit numbers = mseq + position
+        ok = len(nums) > 0
+        return {"agree": agree, "ok": ok, "nontrivial": True, "detail": "", "stats": {"explicit_ok": 1}}
